@@ -20,11 +20,13 @@ def _hash_one(repo):
 def dump(repo):
     import bitcoin.core.script as S
     h1 = _hash_one(repo)
+    # names no property statement mentions: recorded as evidence (a comment), never an obligation
+    extra = ', '.join('%s = %r' % (n, getattr(S, n, None)) for n in ('SIGHASH_ALL', 'SIGVERSION_BASE', 'SIGVERSION_WITNESS_V0'))
     return ('-- GENERATED from the working tree by harness/tables/sighash.py on every run; do not edit.\n'
+            '-- evidence only (not part of the obligation): %s\n'
             'import BtcVerif.Spec.Sighash\n\nnamespace BtcVerif.Generated\nopen BtcVerif.Spec.Sighash\n\n'
             'def sighashTable : SighashTable :=\n'
-            '  { sighashAll := %d, sighashNone := %d, sighashSingle := %d, sighashAnyoneCanPay := %d,\n'
-            '    sigversionBase := %d, sigversionWitnessV0 := %d, opCodeSeparator := %d,\n'
+            '  { sighashNone := %d, sighashSingle := %d, sighashAnyoneCanPay := %d, opCodeSeparator := %d,\n'
             '    hashOne := %s }\n\nend BtcVerif.Generated\n'
-            % (int(S.SIGHASH_ALL), int(S.SIGHASH_NONE), int(S.SIGHASH_SINGLE), int(S.SIGHASH_ANYONECANPAY),
-               int(S.SIGVERSION_BASE), int(S.SIGVERSION_WITNESS_V0), int(S.OP_CODESEPARATOR), list(h1)))
+            % (extra, int(S.SIGHASH_NONE), int(S.SIGHASH_SINGLE), int(S.SIGHASH_ANYONECANPAY),
+               int(S.OP_CODESEPARATOR), list(h1)))
